@@ -242,6 +242,12 @@ def widths(env, g, stat):
         ref2 = m0t * m2 / m0 - m0t * m0t * m1 * m1 / (m0 * m0)
         if isnan(out):
             env.claim(ref2 < 1e-12, "gw NaN only for a negative radicand")
+        elif env.sym:
+            # structural: gw is a logged square root; its radicand must equal the formula in the moments
+            rad = [r for r, y in S.ctx().calls["sqrt"] if y.eq(out.e)]
+            env.claim(len(rad) == 1, "gw is a square root")
+            if rad:
+                env.close(Sym(rad[0]), ref2, "gw^2", abs_=1e-12)
         else:
             env.close(out * out, ref2, "gw^2", abs_=1e-12, ctol=1e-4, catol=1e-9)
 
